@@ -20,33 +20,72 @@ def okWrites (prog : List WOp) (outs : List Out) : List (List Nat) :=
 theorem okReads_append (a b : List Out) : okReads (a ++ b) = okReads a ++ okReads b := by
   unfold okReads; rw [List.filterMap_append]
 
+/-- what a completed call adds to the successful writes -/
+def addOf (op : WOp) (o : Out) : List (List Nat) := match o with | .wrote _ => [op.data] | _ => []
+
 theorem okWrites_snoc (prog : List WOp) (outs : List Out) (op : WOp) (o : Out)
     (h : prog.length = outs.length) :
-    okWrites (prog ++ [op]) (outs ++ [o]) =
-      okWrites prog outs ++ (match o with | .wrote _ => [op.data] | _ => []) := by
-  unfold okWrites
+    okWrites (prog ++ [op]) (outs ++ [o]) = okWrites prog outs ++ addOf op o := by
+  unfold okWrites addOf
   rw [List.zip_append h, List.filterMap_append]
   congr 1
   cases o <;> rfl
 
 /-! ### reader -/
 
+theorem okReads_snoc_data (a : List Out) (bs : List Nat) : okReads (a ++ [.data bs]) = okReads a ++ [bs] := by
+  rw [okReads_append]; rfl
+
+theorem okReads_snoc_err (a : List Out) (e : Err) : okReads (a ++ [.err e]) = okReads a := by
+  rw [okReads_append]; simp [okReads]
+
+theorem okReads_snoc_timedOut (a : List Out) : okReads (a ++ [.timedOut]) = okReads a := by
+  rw [okReads_append]; simp [okReads]
+
 theorem rstep_obs (c : Conf) (h : c.readsOk = okReads c.rOuts) :
     (rstep c).readsOk = okReads (rstep c).rOuts := by
   unfold rstep
   repeat' split
-  all_goals
-    simp only [Conf.rDone, Conf.addLin, okReads_append, ← h]
-    try simp [okReads]
-  all_goals
-    cases c.rb.sem <;> simp [Conf.rDone, Conf.addLin, okReads_append, ← h, okReads]
+  all_goals (try dsimp only)
+  all_goals (repeat' split)
+  all_goals first
+    | (simp [Conf.rDone, Conf.addLin, okReads_snoc_data, okReads_snoc_err, okReads_snoc_timedOut, h]; done)
+    | (cases c.rb.sem <;>
+        simp [Conf.rDone, Conf.addLin, okReads_snoc_data, okReads_snoc_err, okReads_snoc_timedOut, h]; done)
 
 theorem wstep_robs (c : Conf) : (wstep c).readsOk = c.readsOk ∧ (wstep c).rOuts = c.rOuts := by
   unfold wstep
   repeat' split
+  all_goals (try dsimp only)
+  all_goals (repeat' split)
   all_goals first
+    | (simp [Conf.wDone, Conf.addLin, Conf.linWrite]; done)
     | (cases c.rb.sem <;> simp [Conf.wDone, Conf.addLin, Conf.linWrite]; done)
-    | simp [Conf.wDone, Conf.addLin, Conf.linWrite]
+
+theorem sem_isSome_post (r : Rb) : r.post.sem.isSome = r.sem.isSome := by
+  unfold Rb.post; cases r.sem <;> rfl
+
+theorem sem_none_post {r : Rb} : r.post.sem = none ↔ r.sem = none := by
+  unfold Rb.post; cases r.sem <;> simp
+
+theorem sem_none_tryWait {r r1 : Rb} (h : r.tryWait = some r1) : r1.sem = none ↔ r.sem = none := by
+  unfold Rb.tryWait at h
+  split at h
+  · cases h; rfl
+  · cases h
+  · rename_i n hs; cases h; simp [hs]
+
+/-- a reader step leaves the writer's side alone; of the semaphore it keeps the mode -/
+theorem rstep_wside (c : Conf) : (rstep c).writesOk = c.writesOk ∧ (rstep c).wOuts = c.wOuts ∧
+    (rstep c).wprog = c.wprog ∧ (rstep c).wpc = c.wpc ∧ ((rstep c).rb.sem = none ↔ c.rb.sem = none) := by
+  unfold rstep
+  repeat' split
+  all_goals (try dsimp only)
+  all_goals (repeat' split)
+  all_goals first
+    | (simp [Conf.rDone, Conf.addLin, Rb.setMagic, sem_none_post]; done)
+    | (rename_i hw _; simp [Conf.rDone, Conf.addLin, sem_none_tryWait hw]; done)
+    | (cases c.rb.sem <;> simp [Conf.rDone, Conf.addLin, Rb.setMagic, sem_none_post]; done)
 
 /-! ### writer -/
 
@@ -61,17 +100,156 @@ def WObs (prog0 : List WOp) (c : Conf) : Prop :=
   ∃ doneOps, prog0 = doneOps ++ c.wprog ∧ doneOps.length = c.wOuts.length ∧
     c.writesOk = okWrites doneOps c.wOuts ++ inflightW c
 
-theorem sem_isSome_post (r : Rb) : r.post.sem.isSome = r.sem.isSome := by
-  unfold Rb.post; cases r.sem <;> rfl
+theorem inflightW_of_ne {c : Conf} (h : c.wpc ≠ .cmPost) : inflightW c = [] := by
+  unfold inflightW; split
+  · rename_i e _ _; exact absurd e h
+  · rfl
 
-theorem sem_none_post {r : Rb} : r.post.sem = none ↔ r.sem = none := by
-  unfold Rb.post; cases r.sem <;> simp
+theorem WObs.local {prog0 : List WOp} {c c' : Conf} (h : WObs prog0 c) (h1 : c'.wprog = c.wprog)
+    (h2 : c'.wOuts = c.wOuts) (h3 : c'.writesOk = c.writesOk) (h4 : inflightW c' = inflightW c) :
+    WObs prog0 c' := by
+  obtain ⟨d, a, b, e⟩ := h
+  exact ⟨d, by rw [h1]; exact a, by rw [h2]; exact b, by rw [h3, h2, h4]; exact e⟩
 
-theorem sem_none_tryWait {r r1 : Rb} (h : r.tryWait = some r1) : r1.sem = none ↔ r.sem = none := by
-  unfold Rb.tryWait at h
-  split at h
-  · cases h; rfl
-  · cases h
-  · rename_i n hs; cases h; simp [hs]
+/-- the call in progress returns -/
+theorem WObs.done {prog0 : List WOp} {c : Conf} {op : WOp} {rest : List WOp} (h : WObs prog0 c)
+    (hp : c.wprog = op :: rest) (o : Out) (c' : Conf) (h1 : c'.wprog = rest) (h2 : c'.wOuts = c.wOuts ++ [o])
+    (hi : inflightW c' = [])
+    (h3 : ∀ pre, c.writesOk = pre ++ inflightW c → c'.writesOk = pre ++ addOf op o) :
+    WObs prog0 c' := by
+  obtain ⟨d, a, b, e⟩ := h
+  refine ⟨d ++ [op], by rw [h1, a, hp]; simp, by rw [h2]; simp [b], ?_⟩
+  rw [h2, okWrites_snoc _ _ _ _ b, hi, List.append_nil]
+  exact h3 _ e
+
+theorem wstep_wobs (prog0 : List WOp) (c : Conf) (h : WObs prog0 c) : WObs prog0 (wstep c) := by
+  cases hp : c.wprog with
+  | nil =>
+    have e : wstep c = c := by unfold wstep; simp only [hp]
+    rw [e]; exact h
+  | cons op rest =>
+    cases hpc : c.wpc with
+    | sfCmp ws rs b =>
+      by_cases hf : freeSeen c.rb ws rs < op.data.length + MARGIN
+      · have e : wstep c = c.wDone (.err .eagain) := by unfold wstep; simp only [hp, hpc, hf, if_true]
+        rw [e]
+        refine h.done hp (.err .eagain) _ (by simp [Conf.wDone, hp]) rfl
+          (inflightW_of_ne (by simp [Conf.wDone])) ?_
+        intro pre e1
+        rw [inflightW_of_ne (by rw [hpc]; simp)] at e1
+        show c.writesOk = _
+        rw [e1]; rfl
+      · have e : wstep c = { c with wpc := .alWp } := by unfold wstep; simp only [hp, hpc, hf, if_false]
+        rw [e]
+        exact h.local rfl rfl rfl (by rw [inflightW_of_ne (by simp), inflightW_of_ne (by rw [hpc]; simp)])
+    | cmMg old =>
+      cases hs : c.rb.sem with
+      | none =>
+        have e : wstep c = { c with rb := c.rb.setMagic old MAGIC, wpc := .cmPost, writesOk := c.writesOk ++ [op.data], lin := c.lin ++ [(Op.write op.data, Out.wrote op.data.length)] } := by
+          unfold wstep Conf.linWrite; simp only [hp, hpc, hs]
+        rw [e]
+        obtain ⟨d, a, b, e1⟩ := h
+        refine ⟨d, a, b, ?_⟩
+        have i0 : inflightW c = [] := inflightW_of_ne (by rw [hpc]; simp)
+        have i1 : inflightW { c with rb := c.rb.setMagic old MAGIC, wpc := .cmPost, writesOk := c.writesOk ++ [op.data], lin := c.lin ++ [(Op.write op.data, Out.wrote op.data.length)] } = [op.data] := by
+          simp [inflightW, hp, Rb.setMagic, hs]
+        rw [i1]; show c.writesOk ++ [op.data] = _
+        rw [e1, i0, List.append_nil]
+      | some n =>
+        have e : wstep c = { c with rb := c.rb.setMagic old MAGIC, wpc := .cmPost } := by
+          unfold wstep; simp only [hp, hpc, hs]
+        rw [e]
+        refine h.local rfl rfl rfl ?_
+        rw [inflightW_of_ne (c := c) (by rw [hpc]; simp)]
+        simp [inflightW, hp, Rb.setMagic, hs]
+    | cmPost =>
+      cases hs : c.rb.sem with
+      | none =>
+        have e : wstep c = ({ c with rb := c.rb.post } : Conf).wDone (.wrote op.data.length) := by
+          unfold wstep; simp only [hp, hpc, hs]
+        rw [e]
+        refine h.done hp (.wrote op.data.length) _ (by simp [Conf.wDone, hp]) rfl
+          (inflightW_of_ne (by simp [Conf.wDone])) ?_
+        intro pre e1
+        have i0 : inflightW c = [op.data] := by simp [inflightW, hpc, hp, hs]
+        rw [i0] at e1
+        show c.writesOk = _
+        rw [e1]; rfl
+      | some n =>
+        have e : wstep c = (({ c with rb := c.rb.post } : Conf).linWrite op.data).wDone (.wrote op.data.length) := by
+          unfold wstep; simp only [hp, hpc, hs]
+        rw [e]
+        refine h.done hp (.wrote op.data.length) _ (by simp [Conf.wDone, Conf.linWrite, hp]) rfl
+          (inflightW_of_ne (by simp [Conf.wDone])) ?_
+        intro pre e1
+        have i0 : inflightW c = [] := by simp [inflightW, hpc, hp, hs]
+        rw [i0] at e1
+        show c.writesOk ++ [op.data] = _
+        rw [e1, List.append_nil]; rfl
+    | idle =>
+      refine h.local ?_ ?_ ?_ ?_ <;> simp [wstep, hp, hpc, inflightW]
+    | sfRd ws =>
+      refine h.local ?_ ?_ ?_ ?_
+      · simp only [wstep, hp, hpc]; split <;> exact hp
+      · simp only [wstep, hp, hpc]; split <;> rfl
+      · simp only [wstep, hp, hpc]; split <;> rfl
+      · rw [inflightW_of_ne (c := c) (by rw [hpc]; simp)]
+        apply inflightW_of_ne
+        simp only [wstep, hp, hpc]; simp
+    | alWp => refine h.local ?_ ?_ ?_ ?_ <;> simp [wstep, hp, hpc, inflightW]
+    | alSz wp => refine h.local ?_ ?_ ?_ ?_ <;> simp [wstep, hp, hpc, inflightW]
+    | alMg wp => refine h.local ?_ ?_ ?_ ?_ <;> simp [wstep, hp, hpc, inflightW]
+    | copy wp j =>
+      refine h.local ?_ ?_ ?_ ?_ <;> simp only [wstep, hp, hpc] <;> (repeat' split) <;> simp [inflightW, hpc]
+    | cmWp => refine h.local ?_ ?_ ?_ ?_ <;> simp [wstep, hp, hpc, inflightW]
+    | cmSz old => refine h.local ?_ ?_ ?_ ?_ <;> simp [wstep, hp, hpc, inflightW]
+    | cmStep old => refine h.local ?_ ?_ ?_ ?_ <;> simp [wstep, hp, hpc, inflightW]
+    | cmNext old new => refine h.local ?_ ?_ ?_ ?_ <;> simp [wstep, hp, hpc, inflightW]
+    | cmSetWp old new => refine h.local ?_ ?_ ?_ ?_ <;> simp [wstep, hp, hpc, inflightW]
+
+/-- a reader step keeps the writer-side invariant -/
+theorem rstep_wobs (prog0 : List WOp) (c : Conf) (h : WObs prog0 c) : WObs prog0 (rstep c) := by
+  obtain ⟨h1, h2, h3, h4, h5⟩ := rstep_wside c
+  refine h.local h3 h2 h1 ?_
+  unfold inflightW
+  rw [h4, h3]
+  cases hs : c.rb.sem with
+  | none => rw [h5.mpr hs]
+  | some n =>
+    cases hs' : (rstep c).rb.sem with
+    | none => rw [h5.mp hs'] at hs; cases hs
+    | some m => cases c.wpc <;> cases c.wprog <;> rfl
+
+theorem init_wobs (rb : Rb) (wprog : List WOp) (rprog : List ROp) : WObs wprog (init rb wprog rprog) :=
+  ⟨[], rfl, rfl, rfl⟩
+
+/-- **what the two threads observe is what the ghost histories record**, in every reachable
+    configuration -/
+theorem run_obs (prog0 : List WOp) (c : Conf) (sched : List Tid) (hr : c.readsOk = okReads c.rOuts)
+    (hw : WObs prog0 c) :
+    (run c sched).readsOk = okReads (run c sched).rOuts ∧ WObs prog0 (run c sched) := by
+  induction sched generalizing c with
+  | nil => exact ⟨hr, hw⟩
+  | cons t ts ih =>
+    cases t with
+    | w =>
+      refine ih (wstep c) ?_ (wstep_wobs prog0 c hw)
+      rw [(wstep_robs c).1, (wstep_robs c).2]; exact hr
+    | r => exact ih (rstep c) (rstep_obs c hr) (rstep_wobs prog0 c hw)
+
+/-- the completed calls pair up with the front of the program, so `okWrites` may be taken over
+    the whole program -/
+theorem okWrites_prefix (d rest : List WOp) (outs : List Out) (h : d.length = outs.length) :
+    okWrites (d ++ rest) outs = okWrites d outs := by
+  unfold okWrites
+  congr 1
+  induction d generalizing outs with
+  | nil => cases outs with
+    | nil => simp
+    | cons o os => simp at h
+  | cons x xs ih =>
+    cases outs with
+    | nil => simp at h
+    | cons o os => simp only [List.cons_append, List.zip_cons_cons]; rw [ih os (by simpa using h)]
 
 end QbVerif.RingConcLemmas
